@@ -37,7 +37,7 @@ META = {
                     "stub aligner for the realign emitter"],
 }
 
-MENU = ["tp:A:S", "ws:Z:trailing ", "NM:i:-3", "dv:f:-1.5e-3", "zd:Z:a b_#.-:*/", "ba:B:i,1,-2", "ch:A:*", "hx:H:1AE3", "id:f:.5", "s1:i:12"]
+MENU = ["tp:A:S", "ws:Z:trailing ", "ds:i:7", "NM:i:-3", "dv:f:-1.5e-3", "zd:Z:a b_#.-:*/", "ba:B:i,1,-2", "ch:A:*", "hx:H:1AE3", "id:f:.5", "s1:i:12"]
 TYPES = "AifZHB"
 
 
@@ -177,8 +177,7 @@ def run_scan(params):
         s.add(z3.Length(v) <= params["vmax"])
         if t == "Z":
             s.add(tag != z3.StringVal("cg"))
-            if sh["drops_ds"]:
-                s.add(tag != z3.StringVal("ds"))
+            s.add(tag != z3.StringVal("ds"))  # documented exception: the ds:Z tag may be dropped
         field = z3.Concat(tag, z3.StringVal(":" + t + ":"), v)
         if sh["start"] > 12:
             return {"verdict": "refuted", "fail": {"args": ["xx:%s:%s" % (t, "1" if t in "ifH" else "c" if t == "B" else "a")],
@@ -307,7 +306,7 @@ def check_emit(emitter, opt):
     f, err = emit(emitter, opt)
     if err:
         return err
-    got = f[12:]
+    got = [x for x in f[12:] if not x.startswith("ds:Z:")]  # the ds:Z tag may be dropped (documented) or kept
     want = expected_fields(emitter, opt)
     hascg = any(x.startswith("cg:Z:") for x in want)
     if emitter.startswith("realign") and not hascg and emitter != "realign-long":
@@ -458,7 +457,7 @@ def replay(params, model, wd):
     res = real_emit(wd, em, opt)
     if res.get("error"):
         return {"reproduced": True, "key": "C16:emit:%s:exception" % em, "what": res["error"]}
-    got = res["fields"][12:]
+    got = [x for x in res["fields"][12:] if not x.startswith("ds:Z:")]
     want = expected_fields(em, opt)
     hascg = any(x.startswith("cg:Z:") for x in want)
     g2 = list(got)
